@@ -12,6 +12,8 @@ CONSTANTS
   ReexReg = FALSE
   DTX = {"f8"}
   DTY = {"f8", "c16"}
+  MixedShapes = FALSE
+  ResBound = 8192
   OpSet = {"add", "subtract", "remainder", "fmod", "maximum", "minimum", "fmax", "fmin", "hypot", "copysign", "less", "less_equal", "greater", "greater_equal", "equal", "not_equal", "multiply", "divide", "floor_divide", "divmod_q", "divmod_r", "negative", "positive", "absolute", "fabs", "sqrt", "cbrt", "square", "reciprocal", "sin", "cos", "tan", "sign", "power", "dot"}
 INIT Init
 NEXT Next
